@@ -240,6 +240,12 @@ def _run_unit1(name, prop, canary, mutate, suffix, multiple_errors):
             cands = prim
         for s in cands:
             l = u.locate(s["byte_start"])
+            if "tag" in l and not (l["tag"].get("label") or l["tag"].get("clause")) and s.get("byte_end"):
+                # an env clause written over several lines carries its `// #label [tags]` comment
+                # on its last line
+                l2 = u.locate(s["byte_end"] - 1)
+                if "tag" in l2 and (l2["tag"].get("label") or l2["tag"].get("clause")):
+                    l = l2
             if "tag" in l:
                 ctag = l["tag"]
                 if f["fn"] is None:
